@@ -430,6 +430,13 @@ def classify(module, typename, syntax, status, stderr="", facts=()):
         return "C01-choice-ref-no-per"
     if syntax == "cper" and status == "ENCFAIL:EBADF" and uses_alias_of(module, typename, "ENUMERATED"):
         return "C01-enum-ref-no-per"
+    if syntax == "cper" and status == "ENCFAIL:EBADF" and "ustr_nopc" in facts and \
+            has_node(module, typename, lambda n: n["k"] == "REF" and resolve(module, n).get("stype") in ("BMPString", "UniversalString")) :
+        return "C01-string-ref-no-per"
+    if syntax == "cper" and status == "NEQ" and "km_map_ovf" in facts and has_node(module, typename, lambda n: n["k"] == "STRING" and n["stype"] == "PrintableString" and not n["cons"]):
+        return "C01-uper-printablestring-default-bits"
+    if status == "CMP" and "setof_dfl" in facts and syntax in ("cper", "coer", "xer", "cxer"):
+        return "C01-compare-absent-default-order"
     if syntax == "cper" and status == "NEQ" and "km_nomap" in facts:
         return "C01-uper-numericstring-range"
     if syntax == "xer" and status == "NEQ" and "real_f15" in facts:
